@@ -1,6 +1,7 @@
 package main
 
 import (
+	"fmt"
 	"errors"
 	"net"
 	"net/netip"
@@ -159,6 +160,7 @@ type devCfg struct {
 	Addr     string `json:"addr"`  // "" = no address; "a.b.c.d:port"
 	AddrKind string `json:"kind"`  // none | zeroip | port0 | valid
 	Proto    string `json:"proto"` // udp | tcp | any | ""
+	NDoors   int    `json:"-"`     // number of door names configured: 0 = the usual four, -1 = nil, else that many (it must not influence any request)
 	TZ       string `json:"-"`     // the Device.TimeZone field: "" = time.Local, "nil" = nil, else a zone name (it must not influence any result)
 }
 
@@ -205,11 +207,21 @@ func (c clientCfg) deviceList() []uhppote.Device {
 				tz = z
 			}
 		}
+		doors := []string{"a", "b", "c", "d"}
+		switch {
+		case d.NDoors < 0:
+			doors = nil
+		case d.NDoors > 0:
+			doors = []string{}
+			for k := 0; k < d.NDoors; k++ {
+				doors = append(doors, fmt.Sprintf("door %d", k+1))
+			}
+		}
 		if c.ViaNew {
-			devices = append(devices, uhppote.NewDevice(d.Name, d.Serial, a, d.Proto, []string{"a", "b", "c", "d"}, tz))
+			devices = append(devices, uhppote.NewDevice(d.Name, d.Serial, a, d.Proto, doors, tz))
 			continue
 		}
-		devices = append(devices, uhppote.Device{Name: d.Name, DeviceID: d.Serial, Address: a, Doors: []string{"a", "b", "c", "d"}, TimeZone: tz, Protocol: d.Proto})
+		devices = append(devices, uhppote.Device{Name: d.Name, DeviceID: d.Serial, Address: a, Doors: doors, TimeZone: tz, Protocol: d.Proto})
 	}
 	return devices
 }
